@@ -111,6 +111,12 @@ CLAIMS["C07"] = dict(
     note="Modelled: plain definitions, parameters (fin or not), loop variables, shadowing, nesting; compound assignment is treated like := (as the checker does). Not modelled: tuple components, class fields and receivers (fin field through a mutable receiver is accepted by the checker: known finding), the two-map shadow bookkeeping of Environment/ConstrBuilder (only its lookup result).",
     technique="Lean 4 proof over environment model + verdict-class correspondence with mutants",
     design="§5 C07")
+CLAIMS["C05"] = dict(
+    text="Unbounded Lean theorems on the model of call_parameters/unify_fun_arg for every signature, argument list and assignability relation: call_iff_conforms (accepted exactly when no extra argument, every parameter without argument has a default, and each argument is assignable to its parameter), arity_iff, and the single-fault theorems (an extra argument, a missing required argument, or one non-assignable argument anywhere makes the call rejected). "
+         "The model, instantiated with the assignability model tied by C20 on the class table dumped from the real Context, is compared with the checker's verdict (accept / arity error / type error) on generated calls of functions, methods and constructors with 0-3 parameters and trailing defaults, conforming or with one fault, at the positions top level, function body, method call, constructor call, nested argument, branch and loop. The positive half on whole programs is decided by acceptance of well-typed generated programs.",
+    note="Proved: calls against signatures. Oracle only: definitions/returns/initialisers (covered with nullability by C06's matrix), the constraint builder and unifier. Over-rejections by inference are a recorded known finding.",
+    technique="Lean 4 proof over call-conformance model + verdict correspondence with single-fault mutants",
+    design="§5 C05")
 NOT_YET = {}
 ALL = ["C%02d" % i for i in range(1, 21)]
 
